@@ -21,11 +21,18 @@ Correspondence (model ↔ code, through drv_gnfa):
   GNFA_DIRECT     hand-made GNFAs with compound labels (exercises every string rule of to_regex);
   GNFA_VALIDATE   malformed GNFA definitions: exception class of the constructor;
   ISBRACKET       `_isbracket_req` on random strings.
+
+Source families: corpus, bounded-exhaustive, shaped random, sparse 6–8 states, reserved alphabets, and `wordgraph`
+(harness/c12_wordgraph.py): hub states joined by parallel word paths with permuted state names, so that the labels
+a rip combines are already composite (multi-symbol concatenations, bracketed unions of ≥3 alternatives, λ by-passes
+over several λ-states) and every elimination order among equal-degree states occurs; run() takes a slice, search()
+a large sweep.
 """
 from __future__ import annotations
 
 import itertools
 import json
+import re as _pyre
 from collections import deque
 from typing import Any, Dict, List, Optional, Tuple
 
@@ -35,6 +42,7 @@ from automata.fa.nfa import NFA
 from automata.regex.parser import RESERVED_CHARACTERS
 
 from harness import gen
+from harness.c12_wordgraph import wordgraph_source
 from harness.common import Ctx, InfraError, Names, Toks, call, enc_dfa, enc_nfa, toks
 
 LEVEL = "proof"
@@ -43,6 +51,13 @@ RULE = ("cases = valid DFAs / NFAs (ε included); corpus of past defects, then e
         "NFAs), then shaped random automata with ≤4 (thorough ≤5) states: dense parallel/cyclic ε-transitions, "
         "final = initial, several final states, unreachable and dead states, adversarial name pools, alphabets "
         "with digits, ',', '-', 'é' and the astral '𝒳'; sparse sources with 6–8 states (property oracle only); "
+        "the `wordgraph` family (harness/c12_wordgraph.py): series-parallel NFAs / trie-and-DAG-shaped partial DFAs "
+        "with ≤9 states built from a few hub states joined by parallel PATHS spelling words of length 0–3 (bundles "
+        "of 3–4 parallel symbols, empty-string by-passes over 0–2 λ-states, shared prefixes, skip / back / loop "
+        "paths, accepting leaves, words that re-occur on several paths), state names permuted and numbered role "
+        "by role so that the tie-breaks of the rip selection take every order — i.e. elimination steps whose "
+        "operands are already composite labels (multi-symbol concatenations, bracketed unions with ≥3 "
+        "alternatives) next to `|`, `?`, `*`; "
         "a family of sources whose alphabet contains a reserved / white-space character (open finding); plus "
         "hand-made GNFAs with compound labels and malformed GNFA definitions. A case is non-trivial when the "
         "language is non-empty, the source has ≥2 states and the resulting regex contains an operator; "
@@ -61,7 +76,11 @@ EXPLANATION = ("Props/C12.lean proves, for the model, that ripping states in any
                "and that every label string assembled by to_regex is a well-formed rendering (library regex "
                "syntax) of an expression with exactly that language; this run ties the model to the code by "
                "differential execution and evaluates the property itself on the real code with an "
-               "independent language-equivalence oracle through the library's own parser.")
+               "independent language-equivalence oracle through the library's own parser. Because the correctness of "
+               "the assembled string depends on how ALREADY COMPOSITE labels are bracketed, the sources include a "
+               "structured family (wordgraph) in which the labels combined by a rip are concatenations of several "
+               "symbols and bracketed unions of ≥3 alternatives, under every elimination order the state names can "
+               "induce; the evidence counters `wordgraph_*` show its distribution.")
 
 
 # --------------------------------------------------------------------------- encoding
@@ -481,6 +500,72 @@ def correspondence(ctx: Ctx, m, is_nfa: bool, case: dict, prop_failed: bool, all
                 ctx.corr_diff("GNFA_TO_REGEX_ALL", case, rr, outs)
 
 
+# --------------------------------------------------------------------------- family `wordgraph`
+_GROUP3 = _pyre.compile(r"\([^()|]*(\|[^()|]*){2,}\)")       # innermost bracket group with ≥3 alternatives
+_GROUP3_IN_CONCAT = _pyre.compile(r"([^|(]\([^()|]*(\|[^()|]*){2,}\))|(\([^()|]*(\|[^()|]*){2,}\)[^|)*?])")
+_OPTION_OF_COMPOSITE = _pyre.compile(r"\)\?")
+_STAR_OF_COMPOSITE = _pyre.compile(r"\)\*")
+
+
+def wordgraph_stats(ctx: Ctx, info: dict, rips: List[Any], s: Optional[str]):
+    """Distribution of the family: shape features, naming style, the elimination order that really happened
+    (by the role of the ripped states) and the structure of the returned string."""
+    ctx.stat("wordgraph_names_" + info["names"])
+    ctx.stat(f"wordgraph_hubs_{info['n_hubs']}")
+    ctx.stat(f"wordgraph_paths_{min(info['n_paths'], 8)}{'+' if info['n_paths'] >= 8 else ''}")
+    ctx.stat(f"wordgraph_longest_word_{info['max_word']}")
+    for f in info["shape"]:
+        ctx.stat("wordgraph_shape_" + f)
+    roles = [info["role"].get(q, "?") for q in rips]
+    if roles:
+        ctx.stat("wordgraph_first_rip_" + roles[0])
+        ctx.stat("wordgraph_last_rip_" + roles[-1])
+        if "inner" in roles and "hub" in roles:
+            if roles.index("hub") < len(roles) - 1 - roles[::-1].index("inner"):
+                ctx.stat("wordgraph_order_a_hub_before_an_inner_state")
+            else:
+                ctx.stat("wordgraph_order_all_inner_states_before_the_hubs")
+        if "leaf" in roles and "hub" in roles:
+            if roles.index("leaf") < len(roles) - 1 - roles[::-1].index("hub"):
+                ctx.stat("wordgraph_order_a_leaf_before_a_hub")
+            else:
+                ctx.stat("wordgraph_order_all_hubs_before_the_leaves")
+    if isinstance(s, str):
+        if _GROUP3.search(s):
+            ctx.stat("wordgraph_regex_group_of_3plus_alternatives")
+        if _GROUP3_IN_CONCAT.search(s):
+            ctx.stat("wordgraph_regex_group_of_3plus_inside_concatenation")
+        if _OPTION_OF_COMPOSITE.search(s):
+            ctx.stat("wordgraph_regex_option_of_bracketed_operand")
+        if _STAR_OF_COMPOSITE.search(s):
+            ctx.stat("wordgraph_regex_star_of_bracketed_operand")
+        if _pyre.search(r"[^()|*?][^()|*?]+\|", s) or _pyre.search(r"\|[^()|*?][^()|*?]+", s):
+            ctx.stat("wordgraph_regex_multi_symbol_alternative")
+
+
+def check_wordgraph(ctx: Ctx, rng, origin: str, with_model: bool) -> bool:
+    """One source of the family: the property on the real code (the oracle of `property_on_real_code`, word
+    re-confirmed through accepts_input), optionally also model ↔ code.  Returns True when the property failed."""
+    m, is_nfa, info = wordgraph_source(rng)
+    case = describe(m, is_nfa)
+    with RipRecorder() as rec:
+        s, failure = property_on_real_code(ctx, m, is_nfa)
+    nontrivial = (failure is None and isinstance(s, str) and len(m.states) >= 2
+                  and language_nonempty(m, is_nfa) and any(c in s for c in "*|?"))
+    ctx.case((origin, repr(m)) if nontrivial else None)
+    shape_stats(ctx, m, is_nfa, s, origin)
+    wordgraph_stats(ctx, info, rec.rips, s)
+    if failure is not None:
+        ctx.stat("wordgraph_property_fails")
+        ctx.prop_fail(f"{case['kind']} (family wordgraph: {', '.join(info['shape']) or 'plain chain'}; names "
+                      f"{info['names']}; real rip order {[repr(q) for q in rec.rips]}): {failure}",
+                      dict(case, regex=s, family="wordgraph"), None)
+    if with_model:
+        ctx.stat("wordgraph_with_model_correspondence")
+        correspondence(ctx, m, is_nfa, case, failure is not None, False)
+    return failure is not None
+
+
 # --------------------------------------------------------------------------- hand-made GNFAs
 LABEL_POOL = ["", "a", "b", "ab", "a|b", "a*", "(a|b)*", "a?", "(ab)?", "a|b|a", "(a|b)a", "a(b|a)", "()",
               "b*a", "(a|b)|a", "a|(b)", "(())?", "()*", "(a)", "((a|b))", "a?|b", "(a|b)?", "ba*b|a"]
@@ -813,6 +898,24 @@ def corpus() -> List[Tuple[Any, bool, str]]:
     out.append((NFA(states={2, 4, "x"}, input_symbols={"a", "b"},
                     transitions={2: {"a": {4, "x"}, "": {4}}, 4: {"b": {2}, "a": {4}}, "x": {"": {2}}},
                     initial_state=2, final_states={"x", 4}), True, "mixed names"))
+    # composite operands (family wordgraph): a by-pass added to a label that is already a concatenation
+    # containing a bracketed 3-way union; an option / a star of a multi-symbol concatenation
+    out.append((DFA(states={0, 1, 2, 3, 4}, input_symbols={"a", "b", "c"},
+                    transitions={0: {"c": 1, "b": 4}, 1: {"a": 2, "b": 2, "c": 2}, 2: {"a": 3}, 3: {}, 4: {}},
+                    initial_state=0, final_states={3, 4}, allow_partial=True), False, "c(a|b|c)a | b, leaf last"))
+    out.append((DFA(states={0, 1, 2, 3, 4}, input_symbols={"a", "b", "c"},
+                    transitions={4: {"c": 3, "b": 0}, 3: {"a": 2, "b": 2, "c": 2}, 2: {"a": 1}, 1: {}, 0: {}},
+                    initial_state=4, final_states={1, 0}, allow_partial=True), False, "c(a|b|c)a | b, leaf first"))
+    out.append((NFA(states={0, 1, 2, 3}, input_symbols={"a", "b"},
+                    transitions={0: {"a": {1}, "": {2}}, 1: {"b": {3}}, 2: {"": {3}}, 3: {}},
+                    initial_state=0, final_states={3}), True, "(ab)? by two λ-steps, word first"))
+    out.append((NFA(states={0, 1, 2, 3}, input_symbols={"a", "b"},
+                    transitions={0: {"a": {2}, "": {1}}, 2: {"b": {3}}, 1: {"": {3}}, 3: {"": {0}}},
+                    initial_state=0, final_states={3}), True, "((ab)?)* by λ-steps, by-pass first"))
+    out.append((NFA(states={0, 1, 2, 3, 4}, input_symbols={"a", "b", "c"},
+                    transitions={0: {"a": {1}, "": {4}}, 1: {"b": {2}, "c": {2}, "a": {2}}, 2: {"c": {3}},
+                                 4: {"b": {3}}, 3: {}},
+                    initial_state=0, final_states={3}), True, "a(b|c|a)c | λb"))
     # single state, final = initial, ε self-loop
     out.append((NFA(states={0}, input_symbols={"a"}, transitions={0: {"": {0}, "a": {0}}},
                     initial_state=0, final_states={0}), True, "ε self-loop"))
@@ -893,6 +996,10 @@ def run(ctx: Ctx):
     for _ in range(ctx.budget(150, 2000)):
         m, is_nfa = sparse_source(rng)
         check_property_only(ctx, m, is_nfa, "sparse_6to8_states")
+    # 5b. family wordgraph: hubs joined by parallel word paths, permuted names (composite operands of a rip);
+    #     every 8th source also model ↔ code
+    for i in range(ctx.budget(2400, 30000)):
+        check_wordgraph(ctx, rng, "wordgraph", with_model=(i % 8 == 0))
     # 6. alphabets with a reserved regex character / white space: inside the property's domain, the
     #    property FAILS there (open finding, see FINDING_RESERVED); same oracle as everywhere else
     for m, is_nfa in reserved_corpus():
@@ -903,8 +1010,12 @@ def run(ctx: Ctx):
 
 
 def search(ctx: Ctx):
-    """Deeper failing-input search: larger random sources, property only."""
+    """Deeper failing-input search, property only: a large sweep of the wordgraph family (composite operands,
+    every elimination order), then larger random sources."""
     rng = ctx.rng
+    for _ in range(ctx.budget(8000, 100000)):
+        if check_wordgraph(ctx, rng, "search_wordgraph", with_model=False) and ctx.n_prop_fails >= 5:
+            return
     for _ in range(ctx.budget(3000, 30000)):
         k = rng.randrange(3)
         if k == 0:
